@@ -118,7 +118,7 @@ def all_jobs():
     MEMB_REPLACE = [VCALL_VALUE, V_MOVE_ASSIGN, V_CLEAR, CTX_ALLOCATE, V_SWAP_RV_, V_CLONE, V_CTOR_LIT, V_MOVE_CTOR]
     MEMB_CUT = MEMB_REPLACE + [RTE_CTOR, RTE_CTOR_S, '_ZNK4bloc5Value8toStringB5cxx11Ev', '_ZNK4bloc5Value8typeNameB5cxx11Ev']
     COLL_ERASE = '_ZN4bloc10Collection5eraseEN9__gnu_cxx17__normal_iteratorIPKNS_5ValueESt6vectorIS3_SaIS3_EEEE'
-    for n, c, props in (('member_put', 'MemberPUTExpression', ['C01', 'C02', 'C05', 'C09', 'C10']), ('member_delete', 'MemberDELETEExpression', ['C01', 'C02', 'C05', 'C09']), ('member_at', 'MemberATExpression', ['C01', 'C02', 'C05', 'C09', 'C10'])):
+    for n, c, props in (('member_put', 'MemberPUTExpression', ['C01', 'C02', 'C05', 'C09', 'C10', 'C14']), ('member_delete', 'MemberDELETEExpression', ['C01', 'C02', 'C05', 'C09', 'C14']), ('member_at', 'MemberATExpression', ['C01', 'C02', 'C05', 'C09', 'C10'])):
         mg = '_ZNK4bloc%d%s5valueERNS_7ContextE' % (len(c), c)
         J.append(dict(id=n, src='blocc/member/%s.cpp' % n, contract='%s.c' % n, enforce=mg, roots=[mg], replace=list(MEMB_REPLACE), cut=list(MEMB_CUT) + [COLL_ERASE],
                       props=props, pretty='bloc::%s::value' % c, canaries=['normal', 'exceptional'], unwind=2,
@@ -139,15 +139,19 @@ def all_jobs():
                   props=['C01', 'C02', 'C04', 'C05', 'C09', 'C10'], pretty='bloc::MemberCOUNTExpression::value', canaries=['normal', 'exceptional'], unwind=2,
                   unwind_why='Value::deref_value() pointer chase (complete)',
                   structs=DEFAULT_STRUCTS + [STD_STRING, VEC_CHAR, 'bloc::Collection', 'bloc::Tuple', 'bloc::Context', 'bloc::MemberCOUNTExpression']))
+    mg = '_ZNK4bloc18MemberATExpression4typeERNS_7ContextE'
+    J.append(dict(id='member_at_type', src='blocc/member/member_at.cpp', contract='member_at_type.c', enforce=mg, roots=[mg], replace=['VCALL_Expression_type'], cut=['VCALL_Expression_type', RTE_CTOR, RTE_CTOR_S],
+                  props=['C01', 'C02'], pretty='bloc::MemberATExpression::type', canaries=['normal'],
+                  structs=DEFAULT_STRUCTS + [STD_STRING, VEC_CHAR, 'bloc::Context', 'bloc::MemberATExpression']))
     mg = '_ZNK4bloc22MemberINSERTExpression5valueERNS_7ContextE'
     J.append(dict(id='member_insert', src='blocc/member/member_insert.cpp', contract='member_insert.c', enforce=mg, roots=[mg], replace=list(MEMB_REPLACE), cut=list(MEMB_CUT),
-                  props=['C01', 'C02', 'C05', 'C09', 'C10'], pretty='bloc::MemberINSERTExpression::value', canaries=['normal', 'exceptional'], unwind=2,
+                  props=['C01', 'C02', 'C05', 'C09', 'C10', 'C14'], pretty='bloc::MemberINSERTExpression::value', canaries=['normal', 'exceptional'], unwind=2,
                   unwind_why='Value::deref_value() pointer chase; the element loops of table-into-table insertion are outside the contract domain (operand assumption)',
                   structs=DEFAULT_STRUCTS + [STD_STRING, VEC_CHAR, 'bloc::Collection', 'bloc::Tuple', 'bloc::Context']))
     mg = '_ZNK4bloc22MemberCONCATExpression5valueERNS_7ContextE'
     J.append(dict(id='member_concat', src='blocc/member/member_concat.cpp', contract='member_concat.c', enforce=mg, roots=[mg],
                   replace=list(MEMB_REPLACE) + ['_ZN4bloc7Context9getSymbolEj', '_ZN4bloc7Context13storeVariableEjONS_5ValueE'], cut=list(MEMB_CUT) + ['_ZN4bloc7Context9getSymbolEj', '_ZN4bloc7Context13storeVariableEjONS_5ValueE'],
-                  props=['C01', 'C02', 'C05', 'C09'], pretty='bloc::MemberCONCATExpression::value', canaries=['normal', 'exceptional'], unwind=2,
+                  props=['C01', 'C02', 'C05', 'C09', 'C14'], pretty='bloc::MemberCONCATExpression::value', canaries=['normal', 'exceptional'], unwind=2,
                   unwind_why='Value::deref_value() pointer chase; the element loops of table-to-table concatenation are outside the contract domain (operand assumption)',
                   structs=DEFAULT_STRUCTS + [STD_STRING, VEC_CHAR, 'bloc::Collection', 'bloc::Tuple', 'bloc::Context', 'bloc::Symbol']))
     HASHFN = '_ZN4blocL17bloc_builtin_hashEjPKcj'
@@ -317,6 +321,8 @@ def all_jobs():
                       defines=['PARSE_FN=' + mg, 'SUB_FN=' + (PE % sub)], props=['C01'], pretty='bloc::ParseExpression::%s()' % lvl[1:], canaries=['normal', 'exceptional'], unwind=8, bounded_inputs=True,
                       unwind_why='at most 5 tokens from the stub of Parser::pop (two operators in a row), operands from the level below',
                       structs=DEFAULT_STRUCTS + [STD_STRING, 'bloc::Context', 'bloc::ParseExpression', 'bloc::Parser', 'bloc::ParseError', 'bloc::Token']))
+    # (a variant with a full 1023-byte first chunk -- the path that joins the chunks of a long line -- exists in contracts/tokenizer_buf.c under
+    #  TOK_LONG_LINE; CBMC does not finish it within 900 s (flex copies 1026 bytes one by one, memcpy of 1023 bytes): not registered, see DESIGN 0.5)
     # ---- C13: stream readers ----
     mg = '_ZN4bloc12StringReader4readEPNS_6ParserEPci'
     J.append(dict(id='reader_string', src='blocc/string_reader.cpp', contract='reader_string.c', enforce=mg, roots=[mg], replace=[], cut=[],
@@ -452,6 +458,14 @@ def all_jobs():
                   props=['C01', 'C02', 'C05', 'C09', 'C17'], pretty='bloc::TABExpression::value', canaries=['normal', 'exceptional'], unwind=4, bounded_inputs=True,
                   unwind_why='a count of at most 2 elements (operand bound)',
                   structs=DEFAULT_STRUCTS + [STD_STRING, VEC_CHAR, 'bloc::Collection', 'bloc::Tuple', 'bloc::Context', 'bloc::TABExpression']))
+    mg = '_ZN4bloc17BuiltinExpression8handbackERNS_7ContextERNS_5ValueE'
+    J.append(dict(id='builtin_handback', src='blocc/expression_builtin.cpp', contract='builtin_handback.c', enforce=mg, roots=[mg], replace=[CTX_ALLOCATE, V_CLONE, V_MOVE_CTOR, V_CLEAR], cut=[CTX_ALLOCATE, V_CLONE, V_MOVE_CTOR, V_CLEAR, RTE_CTOR, RTE_CTOR_S],
+                  props=['C01', 'C05'], pretty='bloc::BuiltinExpression::handback', canaries=['normal'], structs=DEFAULT_STRUCTS + [STD_STRING, 'bloc::Context']))
+    for jid, mg, df in (('base64_decode', '_ZN4bloc9b64decodeEPKvmRSt6vectorIcSaIcEE', 'JOB_DEC'), ('base64_encode', '_ZN4bloc9b64encodeEPKvmRNSt7__cxx1112basic_stringIcSt11char_traitsIcESaIcEEE', 'JOB_ENC')):
+        J.append(dict(id=jid, src='blocc/builtin/base64.cpp', contract='base64.c', enforce=mg, roots=[mg], replace=[], cut=[], defines=[df],
+                      props=['C01', 'C10'], pretty='bloc::' + ('b64decode' if df == 'JOB_DEC' else 'b64encode'), canaries=['normal'], unwind=14, bounded_inputs=True,
+                      unwind_why='inputs of at most 6 bytes (every content and length)', enums=[], structs=[STD_STRING, VEC_CHAR], globals=['bloc::B64index=_ZN4blocL8B64indexE', 'bloc::B64chars=_ZN4blocL8B64charsE'],
+                      enforce_alt=([('_ZN4bloc9b64decodeEPKcmRSt6vectorIcSaIcEE', ['B64_CHAR_SIGNATURE'])] if df == 'JOB_DEC' else [])))
     # ---- generic builtin contracts (C01, C05): one job per builtin listed here ----
     for ent in BUILTINS_GENERIC:
         name, cls, nargs = ent[0], ent[1], ent[2]
@@ -466,12 +480,12 @@ def all_jobs():
         J.append(dict(id='bi_' + name, src='blocc/builtin/builtin_%s.cpp' % name, contract='builtin_generic.c', enforce=mg, roots=[mg], replace=list(MEMB_REPLACE) + [V_CTOR_IMAG], cut=list(MEMB_CUT) + [V_CTOR_IMAG],
                       props=['C01', 'C05'] + (['C02'] if (ftype or follows or tyform) else []) + (['C03', 'C04', 'C10'] if name in ('int', 'num') else []) + (['C10'] if name == 'isnum' else []), pretty='bloc::%s::value' % cls, canaries=['normal', 'exceptional'], unwind=uw,
                       unwind_why=uw_why,
-                      defines=['BUILTIN_FN=' + mg, 'BUILTIN_CLASS=' + cls, 'BUILTIN_NARGS=%d' % nargs] + (['BUILTIN_STR_MAX=%d' % strmax] if strmax else []) + (['BUILTIN_TYPE=' + ftype] if ftype else []) + (['BUILTIN_TYPE_FOLLOWS_COMPLEX'] if follows else []) + ([tyform] if tyform else []) + (['BUILTIN_ABS'] if name == 'abs' else []) + (['BUILTIN_IS_INT'] if name == 'int' else []) + (['BUILTIN_IS_NUM'] if name == 'num' else []) + (['BUILTIN_IS_ISNUM'] if name == 'isnum' else []),
+                      defines=['BUILTIN_FN=' + mg, 'BUILTIN_CLASS=' + cls, 'BUILTIN_NARGS=%d' % nargs] + (['BUILTIN_STR_MAX=%d' % strmax] if strmax else []) + (['BUILTIN_TYPE=' + ftype] if ftype else []) + (['BUILTIN_TYPE_FOLLOWS_COMPLEX'] if follows else []) + ([tyform] if tyform else []) + (['BUILTIN_RESULT_IS_CONTAINER'] if ftype in ('LITERAL', 'TABCHAR') else []) + (['BUILTIN_ABS'] if name == 'abs' else []) + (['BUILTIN_IS_INT'] if name == 'int' else []) + (['BUILTIN_IS_NUM'] if name == 'num' else []) + (['BUILTIN_IS_ISNUM'] if name == 'isnum' else []),
                       replay=dict(kind='evalnode', headers=['blocc/builtin/builtin_%s.h' % name], mirror_class=cls, children=nargs,
                                   construct='new bloc::%s(std::vector<bloc::Expression*>{%s})' % (cls, ', '.join('kids[%d]' % i for i in range(nargs))),
                                   script='%s(%s)' % (name, ', '.join('{%d}' % i for i in range(nargs)))),
                       **({'bounded_inputs': True, 'thorough': dict(unwind=uw + 6, unwind_why=uw_why.replace('at most 2', 'at most 4') + ' (thorough tier)',
-                                                                     defines=['BUILTIN_FN=' + mg, 'BUILTIN_CLASS=' + cls, 'BUILTIN_NARGS=%d' % nargs, 'BUILTIN_STR_MAX=%d' % (strmax + 2)] + (['BUILTIN_TYPE=' + ftype] if ftype else []))} if strmax else {}),
+                                                                     defines=['BUILTIN_FN=' + mg, 'BUILTIN_CLASS=' + cls, 'BUILTIN_NARGS=%d' % nargs, 'BUILTIN_STR_MAX=%d' % (strmax + 2)] + (['BUILTIN_TYPE=' + ftype] if ftype else []) + (['BUILTIN_TYPE_FOLLOWS_COMPLEX'] if follows else []) + ([tyform] if tyform else []) + (['BUILTIN_RESULT_IS_CONTAINER'] if ftype in ('LITERAL', 'TABCHAR') else []) + (['BUILTIN_ABS'] if name == 'abs' else []) + (['BUILTIN_IS_INT'] if name == 'int' else []) + (['BUILTIN_IS_NUM'] if name == 'num' else []) + (['BUILTIN_IS_ISNUM'] if name == 'isnum' else []))} if strmax else {}),
                       structs=DEFAULT_STRUCTS + [STD_STRING, VEC_CHAR, 'bloc::Imaginary', 'std::complex<double>', 'bloc::Context', 'bloc::' + cls]))
         if ftype or follows or tyform:
             # the static half: type() of the same node
